@@ -70,6 +70,8 @@ pub enum Op {
   SequenceEqualPrefix,
   SwitchOnNext,
   FlatMap(Inner),
+  /// utils::ready_set_go(action, source): the action pushes this script into the (hot) source
+  ReadySetGo(Vec<Ev>),
 }
 
 impl Op {
@@ -124,6 +126,7 @@ impl Op {
       Op::SequenceEqual | Op::SequenceEqualPrefix => "sequence_equal",
       Op::SwitchOnNext => "switch_on_next",
       Op::FlatMap(_) => "flat_map",
+      Op::ReadySetGo(_) => "ready_set_go",
     }
   }
   pub fn show(&self) -> String {
@@ -248,6 +251,8 @@ impl Tokens {
 
 pub struct Env {
   pub srcs: Vec<Observable<'static, V>>,
+  /// pushes an event into hot source i (used by ready_set_go's action)
+  pub push: Vec<Arc<dyn Fn(&Ev) + Send + Sync>>,
   pub toks: Tokens,
   /// side-effect log of `tap` (subscription-independent, C14)
   pub tap_log: Arc<Mutex<Vec<Ev>>>,
@@ -454,6 +459,22 @@ pub fn build_typed(n: &Node, env: &Env) -> Built {
     Op::Sample => Built::V(src.sample(extra[0].clone())),
     Op::SequenceEqual | Op::SequenceEqualPrefix => Built::Bool(src.sequence_equal(&extra)),
     Op::SwitchOnNext => Built::V(src.switch_on_next(extra[0].clone())),
+    Op::ReadySetGo(script) => {
+      let script = script.clone();
+      let push = match &on.input {
+        Node::Src(i) => env.push[*i].clone(),
+        _ => Arc::new(|_: &Ev| {}),
+      };
+      Built::V(utils::ready_set_go(
+        move || {
+          let _ = &t;
+          for ev in &script {
+            push(ev);
+          }
+        },
+        src,
+      ))
+    }
     Op::FlatMap(k) => {
       let k = *k;
       let hots = env.srcs.clone();
